@@ -163,3 +163,38 @@ V('c-ternary-eq-no-kv3', CAT, "            and self.kv2 == other.kv2\n          
 V('c-functor-hash-id', CAT, "    @property\n    def functor(self)", "    def __hash__(self):\n        return id(self)\n\n    @property\n    def functor(self)", ['C13'])
 V('c-silent-functor-explicit-hash', CAT, "    @property\n    def functor(self)", "    def __hash__(self):\n        return hash((self.left, self.slash))\n\n    @property\n    def functor(self)", ['C13'], expect='silent')
 V('c-silent-eq-reordered', CAT, "            self.base == other.base\n            and self.feature == other.feature\n", "            self.feature == other.feature\n            and self.base == other.base\n", ['C13'], expect='silent')
+
+# ---------------------------------------------------------------- grammars (C03, C04)
+EN = 'depccg/grammar/en.py'
+JA = 'depccg/grammar/ja.py'
+V('en-gbx-forward-pattern', EN, 'uni = Unification("(b/c)|d", "a\\\\b")', 'uni = Unification("(b/c)|d", "a/b")', ['C03'])
+V('en-fc-result-backslash', EN, "result = y if _is_modifier(x) else uni['a'] / uni['c']\n        return CombinatorResult(\n            cat=result,\n            op_string=\"fc\"",
+  "result = y if _is_modifier(x) else uni['a'] | uni['c']\n        return CombinatorResult(\n            cat=result,\n            op_string=\"fc\"", ['C03'])
+V('en-fa-returns-b', EN, "result = y if _is_modifier(x) else uni['a']\n        return CombinatorResult(\n            cat=result,\n            op_string=\"fa\"",
+  "result = y if _is_modifier(x) else uni['b']\n        return CombinatorResult(\n            cat=result,\n            op_string=\"fa\"", ['C03'])
+V('en-ba-modifier-returns-y', EN, "result = x if _is_modifier(y) else uni['a']", "result = y if _is_modifier(y) else uni['a']", ['C03'], count=2)
+V('en-bx-no-np-restriction', EN, '        if str(uni["b"]) in ("N", "NP"):\n            return None\n        result = x if _is_modifier(y) else uni[\'a\'] / uni[\'c\']', '        result = x if _is_modifier(y) else uni[\'a\'] / uni[\'c\']', ['C03'])
+V('en-bx-restriction-wrong-var', EN, '        if str(uni["b"]) in ("N", "NP"):\n            return None\n        result = x if _is_modifier(y) else uni[\'a\'] / uni[\'c\']', '        if str(uni["c"]) in ("N", "NP"):\n            return None\n        result = x if _is_modifier(y) else uni[\'a\'] / uni[\'c\']', ['C03'])
+V('en-gfc-fixed-slash', EN, "result = y if _is_modifier(x) else y.functor(\n            (uni['a'] / uni['c']), uni['d'])", "result = y if _is_modifier(x) else (uni['a'] / uni['c']) / uni['d']", ['C03'])
+V('en-gbx-slash-of-wrong-input', EN, "result = x if _is_modifier(y) else x.functor(\n            (uni['a'] / uni['c']), uni['d'])", "result = x if _is_modifier(y) else y.functor(\n            (uni['a'] / uni['c']), uni['d'])", ['C03'])
+V('en-head-right', EN, 'op_string="gfc",\n            op_symbol=">B",\n            head_is_left=True,', 'op_string="gfc",\n            op_symbol=">B",\n            head_is_left=False,', ['C03', 'C01'])
+V('en-unregistered', EN, '    generalized_forward_composition,\n    generalized_backward_composition,\n    conjunction,', '    generalized_backward_composition,\n    conjunction,', ['C03'])
+V('en-dispatch-first-only', EN, "            if result is not None:\n                results.append(result)\n\n    return results", "            if result is not None:\n                results.append(result)\n                break\n\n    return results", ['C03', 'C14'])
+V('en-fc-pattern-crossed', EN, 'uni = Unification("a/b", "b/c")', 'uni = Unification("a/b", "b\\\\c")', ['C03'])
+V('en-punct-returns-literal', EN, "    if _is_punct(y):\n        result = x", "    if _is_punct(y):\n        result = Category.parse('S[dcl]')", ['C03'])
+V('en-label-swapped', EN, 'op_string="fa",\n            op_symbol=">",', 'op_string="ba",\n            op_symbol="<",', ['C03'])
+V('en-modifier-loose', EN, "    return x.is_functor and x.left == x.right", "    return x.is_functor and x.left ^ x.right", ['C03'])
+V('en-silent-named-args', EN, "result = y if _is_modifier(x) else uni['a'] / uni['c']\n        return CombinatorResult(\n            cat=result,\n            op_string=\"fc\",\n            op_symbol=\">B\",\n            head_is_left=True,\n        )",
+  "if _is_modifier(x):\n            out = y\n        else:\n            out = Functor(uni['a'], '/', uni['c'])\n        return CombinatorResult(out, \"fc\", \">B\", True)", ['C03'], expect='silent')
+V('ja-bx1-slash', JA, "result = y if _is_modifier(x) else uni['a'] | uni['c']\n        return CombinatorResult(\n            cat=result,\n            op_string=\"fx\",\n            op_symbol=\">Bx1\"",
+  "result = y if _is_modifier(x) else uni['a'] / uni['c']\n        return CombinatorResult(\n            cat=result,\n            op_string=\"fx\",\n            op_symbol=\">Bx1\"", ['C04'])
+V('ja-b3-wrong-node', JA, "x.left.functor(uni['a'] | uni['c'], uni['d']), uni['e']", "x.functor(uni['a'] | uni['c'], uni['d']), uni['e']", ['C04'])
+V('ja-b2-degree', JA, 'uni = Unification("(b\\\\c)|d", "a\\\\b")', 'uni = Unification("((b\\\\c)|d)|e", "a\\\\b")', ['C04'])
+V('ja-head-left', JA, 'op_symbol="<B2",\n            head_is_left=False,', 'op_symbol="<B2",\n            head_is_left=True,', ['C04', 'C01'])
+V('ja-sseq-one-sided', JA, "        x in _possible_root_categories\n        and y in _possible_root_categories", "        y in _possible_root_categories", ['C04'])
+V('ja-sseq-returns-x', JA, "        result = y\n        return CombinatorResult(\n            cat=result,\n            op_string=\"other\"", "        result = x\n        return CombinatorResult(\n            cat=result,\n            op_string=\"other\"", ['C04'])
+V('ja-unary-method-compare', JA, "        if x.nargs == 0:", "        if x.clear_features == 'S':", ['C04'])
+V('ja-unary-adv-swapped', JA, "        if x.nargs == 1:\n            return 'ADV1'\n        elif x.nargs == 2:\n            return 'ADV2'", "        if x.nargs == 2:\n            return 'ADV1'\n        elif x.nargs == 1:\n            return 'ADV2'", ['C04'])
+V('ja-unary-items-unguarded', JA, "set(feature.items()) if isinstance(feature, TernaryFeature) else set()", "set(feature.items())", ['C04', 'C14'])
+V('ja-bx3-symbol', JA, 'op_symbol=">Bx3"', 'op_symbol=">Bx2"', ['C04'])
+V('ja-silent-xor-form', JA, "        if x.nargs == 1:\n            return 'ADV1'", "        if x ^ Category.parse('S\\\\NP'):\n            return 'ADV1'", ['C04'], expect='silent')
